@@ -144,6 +144,14 @@ pub(crate) fn note_merge_next<I: Interner>(s: &CanonicalStrand<I>) {
     }
 }
 
+/// A merge that unwound (panic in a database callback) never emitted its `Merge`
+/// event: its note must not leak into the next one.
+pub(crate) fn forget_merge_next() {
+    if enabled() {
+        MERGE_NEXT.with(|m| *m.borrow_mut() = None);
+    }
+}
+
 /// Emits the `Merge` event: `outcome` is one of `ok`, `ambflounder`,
 /// `unifyfail`, `negfail`, `negamb`.
 pub(crate) fn ev_merge(outcome: &str, new_strand: Option<String>) {
